@@ -20,12 +20,14 @@
 (*                   internal RELATIVE path to the operating system.  Repaired in /repo     *)
 (*                   (0db1dbc: exact type test); the probe now binds ZipCountsAsReal=FALSE  *)
 (*                                                                                          *)
+(*  NestedZipProbesCwd  ZIPHandler on an archive's index probes <cwd>/<member>.zip            *)
+(*                                                                                          *)
 (* Deviations of the code from the ideal are constants bound from the working tree by       *)
 (* probes in harness/c01.py (binding B1), never idealised away.                             *)
 (* Text = sequences of one-character strings (see FS.tla).                                  *)
 EXTENDS FS, MC_C01_consts
-\* MC_C01_consts supplies: NulRaises, ZipCountsAsReal (BOOLEAN), DefaultList, FullList (sequences
-\* of handler class names read from the working tree)
+\* MC_C01_consts supplies: NulRaises, ZipCountsAsReal, NestedZipProbesCwd (BOOLEAN), DefaultList,
+\* FullList (sequences of handler class names read from the working tree)
 
 NUL == "^"         \* stands for the byte 0x00 (harness gamma/alpha translate)
 Oth == "~"         \* stands for "some other byte without meaning to filter or path lookup"
@@ -244,6 +246,11 @@ Dispatch(d, list, vfs, all) ==
         zip  == "ZIPHandler" \in Range(list)
         zb   == IF zip THEN ZipBaseOf(vfs, hs) ELSE <<>>
         zt   == zip /\ \E i \in 1..Len(hs) : VStat(vfs, hs[i]).out
+        \* "NestedZipProbesCwd": on an archive's index the walk-up finds a MEMBER named *.zip and asks
+        \* zipfile.is_zipfile(VFSZip.getfspath(member)) - an archive-internal relative path, opened in
+        \* the working directory; what happens next depends on what lies there
+        nz   == zip /\ vfs = "zip" /\ NestedZipProbesCwd
+                /\ \E i \in 1..Len(hs) : EndsWithQ(hs[i], qZip) /\ VStat(vfs, hs[i]).k = "file"
         Acc(h) ==
           CASE h = "HTMLURLHandler"        -> UrlShaped(d) /\ UrlSecure(d)
             [] h = "BuckGophermapHandler"  -> sec /\ ((s0.k = "dir" /\ gm.k = "file") \/ (s0.k = "file" /\ EndsWithQ(d, qDotGophermap)))
@@ -257,7 +264,7 @@ Dispatch(d, list, vfs, all) ==
             [] h = "MBoxFolderHandler"     -> sec /\ RealOnlyGuard(vfs) /\ v.args = <<>> /\ sv.k = "file" /\ sv.f = "mbox"
             [] h = "PYGHandler"            -> sec /\ RealOnlyGuard(vfs) /\ sv.k = "file" /\ sv.f = "exec" /\ EndsWithQ(v.real, qPyg)
             [] h = "ExecHandler"           -> sec /\ RealOnlyGuard(vfs) /\ sv.k = "file" /\ sv.f = "exec"
-            [] h = "ZIPHandler"            -> sec /\ zb # <<>>
+            [] h = "ZIPHandler"            -> sec /\ (zb # <<>> \/ nz)
             [] h = "CompressedFileHandler" -> FALSE               \* no decompressor matches a name of the tree
             [] h = "FileHandler"           -> sec /\ s0.k = "file"
             [] h = "URLTypeRewriter"       -> sec /\ Len(d) >= 3 /\ d[1] = "/" /\ d[3] = "/"
@@ -274,7 +281,9 @@ Dispatch(d, list, vfs, all) ==
                   LET o == Dispatch(SubSeq(d, 3, Len(d)), Remove(all, h), "real", all)
                   IN [o EXCEPT !.route = "rewrite/" \o o.route, !.tainted = o.tainted \/ used,
                                !.lsel = IF o.h = "none" THEN o.lsel ELSE d]
-           [] h = "ZIPHandler" ->
+           [] h = "ZIPHandler" /\ nz ->
+                  Outcome(h, "ZIPHandler(nested)", "any", d, used, TRUE)
+           [] h = "ZIPHandler" /\ ~nz ->
                   LET o == Dispatch(d, all, "zip", all)
                   IN [o EXCEPT !.h = "ZIPHandler", !.route = "zip/" \o o.route, !.tainted = o.tainted \/ used]
            [] h = "HTMLURLHandler" -> Outcome(h, h, "ok", d, FALSE, FALSE)
@@ -287,6 +296,12 @@ Dispatch(d, list, vfs, all) ==
            [] h = "ExecHandler" -> Outcome(h, h, "any", d, used, vfs # "real")
            \* (a directory listing leaves out a child whose selector the filter rejects - "/k/." makes
            \*  "/k/./g" - since the fix for C12; the listing itself is answered)
+           \* Listing a directory of an archive resolves every member through the handler chain: a member
+           \* named *.zip makes ZIPHandler probe the working directory (NestedZipProbesCwd) for the listing too
+           [] h \in {"UMNDirHandler", "DirHandler"} /\ vfs = "zip" /\ zip /\ NestedZipProbesCwd
+                /\ (\E n \in ZipChildren(s0.at) : EndsWithQ(n, qZip)
+                                                  /\ ZipStat(d \o <<"/">> \o n).k = "file") ->
+                  Outcome(h, h \o "(nested child)", "any", d, used, TRUE)
            [] OTHER -> Outcome(h, h, "ok", d, used, FALSE)
 
 HandlerList(hl) == IF hl = "full" THEN FullList ELSE DefaultList
